@@ -13,7 +13,7 @@ def registry(tier):
     import queries as Q
     R = {}
     def add(prop, name, qtier, fn): R.setdefault(prop, []).append((name, qtier, fn))
-    TO = 900 if tier == "quick" else 3600
+    TO = 900 if tier == "quick" else int(os.environ.get("VERIF_THOROUGH_QUERY_TIMEOUT_S", "1800"))
     def fifo(prop, name, qtier, kind, N, k, threads, oracle, slack=3):
         add(prop, name, qtier, lambda ctx: Q.fifo_query(ctx, name, kind, N, k, threads, oracle, slack, TO))
     P, C = ["send"], ["recv"]
